@@ -19,8 +19,10 @@ import TmcgProofs.Dkg
          sender `k` appended to `b[k]` is the same list `(outOf steps ps k).1` for every receiver
     (2)  `stepParty`; the output filter of a party with an honest script is the identity
     (3)  `qual` is not changed by rounds ≥ 4 (`ag_runRounds_qual`)
-    (4)  the readers as functions of ONE sender's stream (`reS`, `rcS`, `raS`, `shOne`) and the
-         equations `ag_readElems`, `ag_genReadComplaints`, `ag_genReadAnswers`, `ag_genReadShares_cons`
+    (4)  the readers as functions of ONE sender's stream (`reS`, `rcS`, `raS`, `anS`, `shOne`) and the
+         equations `ag_readElems`, `ag_genReadComplaints`, `ag_genReadAnswers`, `ag_answeredOf`,
+         `ag_complaintsOf`, `ag_genReadShares_cons`; the `complainers` lists (`ag_genComplainers`) and the
+         unanswered complaints (`unB`, `ag_mem_unanswered`)
     (5)  the loops over the senders: what is read / left alone (`…_frame`, `…_hit`, `…_glob`),
          the complaint counters as sums (`ag_genCollectGo_cnt`), totality of the arithmetic
     (6)  the readers on well-formed streams (`ag_reS_honest`, `ag_rcS_honest`, `ag_raS_honest`)
@@ -302,11 +304,11 @@ theorem ag_runRound_party {σ} (steps : Nat → Step σ) (ps : List (Party σ)) 
 /-! ### (2) one party's step; the output filter of an honest party -/
 
 theorem ag_honest_unpack (d : Dev) (h : d.honest = true) :
-    d.sfb = false ∧ d.silent = none ∧ d.po = [] ∧ d.pi = [] ∧ d.ba = [] ∧ d.bd = [] ∧ d.bi = [] := by
+    d.sfb = false ∧ d.silent = none ∧ d.po = [] ∧ d.pi = [] ∧ d.ba = [] ∧ d.bd = [] ∧ d.bi = [] ∧ d.bm = [] := by
   simp only [Dev.honest, Bool.and_eq_true, Bool.not_eq_true', List.isEmpty_iff,
     Option.isNone_iff_eq_none] at h
-  obtain ⟨⟨⟨⟨⟨⟨h1, h2⟩, h3⟩, h4⟩, h5⟩, h6⟩, h7⟩ := h
-  exact ⟨h1, h2, h3, h4, h5, h6, h7⟩
+  obtain ⟨⟨⟨⟨⟨⟨⟨h1, h2⟩, h3⟩, h4⟩, h5⟩, hbm⟩, h6⟩, h7⟩ := h
+  exact ⟨h1, h2, h3, h4, h5, h6, h7, hbm⟩
 
 /-- the broadcasts / the private values in a list of output operations -/
 def bcs : List Op → List (Tag × Int)
@@ -343,7 +345,7 @@ theorem ag_pvs_map_bc (tag : Tag) (l : List Int) : pvs (l.map (Op.bc tag)) = [] 
 theorem ag_applyOps_honest (n : Nat) (d : Dev) (hd : d.honest = true) (ops : List Op) (fs : FState)
     (hfs : fs.dead = false) :
     (applyOps n d ops fs).2 = (bcs ops, pvs ops) ∧ (applyOps n d ops fs).1.dead = false := by
-  obtain ⟨h1, h2, h3, h4, h5, h6, h7⟩ := ag_honest_unpack d hd
+  obtain ⟨h1, h2, h3, h4, h5, h6, h7, hbm⟩ := ag_honest_unpack d hd
   induction ops generalizing fs with
   | nil => simp [applyOps, bcs, pvs, hfs]
   | cons op ops ih =>
@@ -353,7 +355,7 @@ theorem ag_applyOps_honest (n : Nat) (d : Dev) (hd : d.honest = true) (ops : Lis
     have hfs : ({ ops := o, seg := sg, off := off, poCnt := pc, dead := false } : FState).dead = false := rfl
     cases op with
     | bc tag v =>
-      simp only [applyOps, applyOp, h2, h5, h6, h7, bcs, pvs]
+      simp only [applyOps, applyOp, h2, h5, h6, h7, hbm, List.reverse_nil, List.find?_nil, bcs, pvs]
       by_cases hv : v = (n : Int)
       · have := ih { ops := o + 1, seg := sg + 1, off := 0, poCnt := pc, dead := false } rfl
         simp [hv, lookup2, this.1, this.2]
@@ -2866,5 +2868,409 @@ theorem ag_round2 (S : Setting G n t ins) (hn64 : n < 2 ^ 64) (hf : n - (honestI
           exact absurd (List.count_pos_iff.mpr hmem) (by omega)
         · rw [← hAg i i' P Q hi hi' hP hQ c hc hci hci'] at hmem
           simpa using v10 c hc hci hmem
+
+/-! ### (12) round 3: QUAL; the agreement theorems -/
+
+theorem ag_genResolve_qual_form (st st' : GenSt) (I I' : Inbox) (ops : List Op) (status : Status)
+    (h : genResolve G st I = .ok (st', I', ops, status)) :
+    ∃ p : Nat → Bool, st'.qual = (List.range st.n).filter p := by
+  unfold genResolve at h
+  obtain ⟨⟨I1, s, sp, cm⟩, -, h⟩ := ag_bind_ok _ _ _ h
+  simp only at h
+  obtain ⟨gs, -, h⟩ := ag_bind_ok _ _ _ h
+  split at h
+  · injection h with h; injection h with h; rw [← h]; exact ⟨_, rfl⟩
+  · split at h
+    · injection h with h; injection h with h; rw [← h]; exact ⟨_, rfl⟩
+    · split at h
+      · injection h with h; injection h with h; rw [← h]; exact ⟨_, rfl⟩
+      · injection h with h; injection h with h; rw [← h]; exact ⟨_, rfl⟩
+
+theorem ag_filter_range_eq (n : Nat) (p p' : Nat → Bool)
+    (h : ∀ k, k ∈ (List.range n).filter p ↔ k ∈ (List.range n).filter p') :
+    (List.range n).filter p = (List.range n).filter p' := by
+  apply List.filter_congr
+  intro x hx
+  have := h x
+  simp only [List.mem_filter, hx, true_and] at this
+  cases hp : p x <;> cases hp' : p' x <;> simp_all
+
+/-- after round 3: every honest party's QUAL contains every honest party, and two honest parties
+    have the same QUAL -/
+def Inv4 (ins : List PartyIn) (R : List (Party GenSt)) : Prop :=
+  (∀ i, i ∈ honestIdx ins → ∃ P, R[i]? = some P ∧ ∀ j, j ∈ honestIdx ins → j ∈ P.st.qual) ∧
+  (∀ i i' P P', i ∈ honestIdx ins → i' ∈ honestIdx ins → R[i]? = some P → R[i']? = some P' →
+    P.st.qual = P'.st.qual)
+
+theorem ag_unB_iff (st : GenSt) (k : Nat) (s : List (Tag × Int)) :
+    unB st k s = true ↔ ∃ c ∈ st.complainers.getD k [], c ∉ anS st.n (st.n + 1) s [] := by
+  simp [unB, List.any_eq_true]
+
+/-- round 3 for one party that is still following the protocol -/
+theorem ag_round3_party (hG : ValidGrp G) (R : List (Party GenSt)) (i : Nat) (P : Party GenSt)
+    (hP : R[i]? = some P) (hl : HL P) (hn : P.st.n = n) (ht : P.st.t = t) (hi : P.st.i = i)
+    (hb : P.inbox.b.length = n) (hsin : InR G.q P.st.s) :
+    ∃ P' : Party GenSt, (runRound (genStep G ins n t 3) R)[i]? = some P' ∧
+      (∃ p : Nat → Bool, P'.st.qual = (List.range n).filter p) ∧
+      ∀ k, k ∈ P'.st.qual ↔ k < n ∧ ¬ (k ∈ P.st.compl ∨ t < getN P.st.cnt k ∨
+        (k ≠ i ∧ (raBad G n (getRow P.st.C k) (bsOf P.inbox k) = true ∨
+          ∃ c ∈ P.st.complainers.getD k [], c ∉ anS n (n + 1) (bsOf P.inbox k) []))) := by
+  obtain ⟨st', I', ops, status, hr, hq⟩ := ag_genResolve_spec hG P.st P.inbox (by rw [hb, hn]) hsin
+  simp only [ag_unB_iff, hn, ht, hi] at hq
+  have hs : genStep G ins n t 3 i P.st P.inbox = .ok (st', I', ops, status) := hr
+  obtain ⟨-, P', hP', e1, -⟩ := ag_honest_round (genStep G ins n t 3) R i P hP hl _ _ _ _ hs
+  obtain ⟨p, hp⟩ := ag_genResolve_qual_form P.st st' P.inbox I' ops status hr
+  rw [hn] at hp
+  exact ⟨P', hP', ⟨p, by rw [e1]; exact hp⟩, by rw [e1]; exact hq⟩
+
+theorem ag_round3 (S : Setting G n t ins) (R : List (Party GenSt)) (h : Inv3 G n t ins R) :
+    Inv4 ins (runRound (genStep G ins n t 3) R) := by
+  obtain ⟨hlen, hS, hAg, hX⟩ := h
+  have hG := S.hG
+  have hparty : ∀ i, i ∈ honestIdx ins → ∃ (P P' : Party GenSt),
+      R[i]? = some P ∧ S3 G n t ins i P ∧ (runRound (genStep G ins n t 3) R)[i]? = some P' ∧
+      (∃ p : Nat → Bool, P'.st.qual = (List.range n).filter p) ∧
+      ∀ k, k ∈ P'.st.qual ↔ k < n ∧ ¬ (k ∈ P.st.compl ∨ t < getN P.st.cnt k ∨
+        (k ≠ i ∧ (raBad G n (getRow P.st.C k) (bsOf P.inbox k) = true ∨
+          ∃ c ∈ P.st.complainers.getD k [], c ∉ anS n (n + 1) (bsOf P.inbox k) []))) := by
+    intro i hi
+    obtain ⟨P, hP, h3⟩ := hS i hi
+    obtain ⟨P', hP', hp, hq⟩ := ag_round3_party (ins := ins) hG R i P hP h3.hl h3.hn h3.ht h3.hi h3.blen h3.sIn
+    exact ⟨P, P', hP, h3, hP', hp, hq⟩
+  have hmem : ∀ i, i ∈ honestIdx ins → ∀ (P P' : Party GenSt), R[i]? = some P →
+      (∀ k, k ∈ P'.st.qual ↔ k < n ∧ ¬ (k ∈ P.st.compl ∨ t < getN P.st.cnt k ∨
+        (k ≠ i ∧ (raBad G n (getRow P.st.C k) (bsOf P.inbox k) = true ∨
+          ∃ c ∈ P.st.complainers.getD k [], c ∉ anS n (n + 1) (bsOf P.inbox k) [])))) →
+      ∀ j, j ∈ honestIdx ins → j ∈ P'.st.qual := by
+    intro i hi P P' hP hq j hj
+    obtain ⟨P0, hP0, h3⟩ := hS i hi
+    rw [hP] at hP0
+    injection hP0 with hP0
+    subst hP0
+    obtain ⟨hj1, -⟩ := (ag_mem_honestIdx ins j).mp hj
+    rw [S.hn] at hj1
+    obtain ⟨c1, c2, c3⟩ := h3.CH j hj
+    rw [hq j]
+    refine ⟨hj1, ?_⟩
+    rintro (h | h | ⟨hji, h | ⟨c, hc, hnc⟩⟩)
+    · exact c3 h
+    · omega
+    · obtain ⟨Pj, hPj, -⟩ := hS j hj
+      have := (hX j i Pj P hj hi hPj hP hji).2.2.1
+      rw [c1, this] at h
+      exact Bool.false_ne_true h
+    · obtain ⟨Pj, hPj, -⟩ := hS j hj
+      exact hnc ((hX j i Pj P hj hi hPj hP hji).2.2.2.2 c hc)
+  constructor
+  · intro i hi
+    obtain ⟨P, P', hP, h3, hP', -, hq⟩ := hparty i hi
+    exact ⟨P', hP', hmem i hi P P' hP hq⟩
+  · intro i i' P1 P1' hi hi' hP1 hP1'
+    by_cases hne : i = i'
+    · subst hne
+      rw [hP1] at hP1'
+      injection hP1' with hP1'
+      rw [hP1']
+    obtain ⟨P, P', hP, h3, hP', ⟨p, hp⟩, hq⟩ := hparty i hi
+    obtain ⟨Q, Q', hQ, hq3, hQ', ⟨p', hp'⟩, hqq⟩ := hparty i' hi'
+    rw [hP'] at hP1
+    rw [hQ'] at hP1'
+    injection hP1 with hP1
+    injection hP1' with hP1'
+    subst hP1 hP1'
+    rw [hp, hp']
+    apply ag_filter_range_eq
+    intro k
+    rw [← hp, ← hp']
+    by_cases hki : k = i
+    · subst hki
+      exact ⟨fun _ => hmem i' hi' Q Q' hQ hqq k hi, fun _ => hmem k hi P P' hP hq k hi⟩
+    by_cases hki' : k = i'
+    · subst hki'
+      exact ⟨fun _ => hmem k hi' Q Q' hQ hqq k hi', fun _ => hmem i hi P P' hP hq k hi'⟩
+    rw [hq k, hqq k]
+    by_cases hk : k < n
+    · obtain ⟨x1, x2, -, x4, -⟩ := hX i i' P Q hi hi' hP hQ hne
+      obtain ⟨y1, y2⟩ := x1 k hk hki hki'
+      have x5 := x4 k hk hki hki'
+      rw [y1, y2, x2 k hk, hAg i i' P Q hi hi' hP hQ k hk hki hki']
+      simp only [x5]
+      simp [hki, hki']
+    · simp [hk]
+
+theorem ag_range_split (t : Nat) : List.range (6 + t + 1) = [0, 1, 2, 3] ++ List.range' 4 (t + 3) := by
+  rw [List.range_eq_range', show 6 + t + 1 = 4 + (t + 3) by omega, ← List.range'_append_1]
+  rfl
+
+/-- the run up to QUAL -/
+theorem ag_inv4 (S : Setting G n t ins) (hn64 : n < 2 ^ 64) (hf : n - (honestIdx ins).length ≤ t) :
+    Inv4 ins (runRounds (genStep G ins n t) [0, 1, 2, 3] (ps0 n t ins)) :=
+  ag_round3 S _ (ag_round2 S hn64 hf _ (ag_round1 S hn64 _ (ag_round0 S)))
+
+theorem ag_runGen_qual (n t : Nat) (ins : List PartyIn) (i : Nat) :
+    ((runGen G n t ins)[i]?).map (fun P => P.st.qual) =
+      ((runRounds (genStep G ins n t) [0, 1, 2, 3] (ps0 n t ins))[i]?).map (fun P => P.st.qual) := by
+  rw [ag_runGen_eq, ag_range_split, ag_runRounds_append]
+  apply ag_runRounds_qual
+  intro k hk
+  have := (List.mem_range'_1.mp hk).1
+  exact this
+
+set_option linter.unusedVariables false in
+/-- all honest parties compute the same set QUAL (for ALL scripts of the other parties).
+
+    Statement of `qual_agree` (TmcgProofs/Dkg.lean) plus `n < 2^64`: without the bound the statement
+    is FALSE in the model, because `mpz_get_ui` truncates the end marker `n` of a complaint list to
+    `n mod 2^64 < n`, which is then read as a complaint (see the report at the end of the file). -/
+theorem qual_agree' (hG : ValidGrp G) (n t : Nat) (ins : List PartyIn) (hn : ins.length = n) (ht : 2 * t < n)
+    (hn64 : n < 2 ^ 64)
+    (hf : n - (honestIdx ins).length ≤ t)
+    (hc : ∀ i ∈ honestIdx ins, goodCoins G t (ins.getD i ⟨[], [], {}, {}⟩))
+    (i j : Nat) (hi : i ∈ honestIdx ins) (hj : j ∈ honestIdx ins) (Pi Pj : Party GenSt)
+    (hPi : (runGen G n t ins)[i]? = some Pi) (hPj : (runGen G n t ins)[j]? = some Pj) :
+    Pi.st.qual = Pj.st.qual := by
+  have S : Setting G n t ins := ⟨hG, hn, hc⟩
+  obtain ⟨-, h4⟩ := ag_inv4 S hn64 hf
+  have e1 := ag_runGen_qual (G := G) n t ins i
+  have e2 := ag_runGen_qual (G := G) n t ins j
+  rw [hPi] at e1
+  rw [hPj] at e2
+  cases hQi : (runRounds (genStep G ins n t) [0, 1, 2, 3] (ps0 n t ins))[i]? with
+  | none => rw [hQi] at e1; cases e1
+  | some Qi =>
+    cases hQj : (runRounds (genStep G ins n t) [0, 1, 2, 3] (ps0 n t ins))[j]? with
+    | none => rw [hQj] at e2; cases e2
+    | some Qj =>
+      rw [hQi] at e1
+      rw [hQj] at e2
+      simp only [Option.map_some, Option.some.injEq] at e1 e2
+      rw [e1, e2]
+      exact h4 i j Qi Qj hi hj hQi hQj
+
+set_option linter.unusedVariables false in
+/-- honest parties are never disqualified (statement of `honest_in_qual` plus `n < 2^64`, see
+    `qual_agree'`) -/
+theorem honest_in_qual' (hG : ValidGrp G) (n t : Nat) (ins : List PartyIn) (hn : ins.length = n) (ht : 2 * t < n)
+    (hn64 : n < 2 ^ 64)
+    (hf : n - (honestIdx ins).length ≤ t)
+    (hc : ∀ i ∈ honestIdx ins, goodCoins G t (ins.getD i ⟨[], [], {}, {}⟩))
+    (i j : Nat) (hi : i ∈ honestIdx ins) (hj : j ∈ honestIdx ins) (Pi : Party GenSt)
+    (hPi : (runGen G n t ins)[i]? = some Pi) :
+    j ∈ Pi.st.qual := by
+  have S : Setting G n t ins := ⟨hG, hn, hc⟩
+  obtain ⟨h4, -⟩ := ag_inv4 S hn64 hf
+  have e1 := ag_runGen_qual (G := G) n t ins i
+  rw [hPi] at e1
+  obtain ⟨Qi, hQi, hq⟩ := h4 i hi
+  rw [hQi] at e1
+  simp only [Option.map_some, Option.some.injEq] at e1
+  rw [e1]
+  exact hq j hj
+
+/-! ### (13) the bound `n < 2^64` is needed: refutation of the unrestricted statements
+
+  For `n ≥ 2^64` the end marker `n` of a complaint list is truncated by `mpz_get_ui` to
+  `n mod 2^64 < n` and read as a complaint; the reader then runs into a time-out and puts the
+  sender on its complaint list.  With `n = 2^64`, `t = 0` and every party honest, party 0 ends with
+  `1 ∉ QUAL` and party 1 with `1 ∈ QUAL`. -/
+
+theorem cx_rcS_marker (n : Nat) (hn : 2 ^ 64 ≤ n) :
+    rcS n (n + 1) 0 [] [((none : Tag), (n : Int))] = ([n % 2 ^ 64], 1, []) := by
+  obtain ⟨m, rfl⟩ : ∃ m, n = m + 1 := ⟨n - 1, by omega⟩
+  have hui : getUi ((m + 1 : Nat) : Int) = (m + 1) % 2 ^ 64 := by
+    unfold getUi
+    rw [Int.natAbs_natCast]
+  have hlt : (m + 1) % 2 ^ 64 < m + 1 := lt_of_lt_of_le (Nat.mod_lt _ (by norm_num)) hn
+  rw [rcS, ag_popS_none_cons]
+  simp only [hui, hlt, true_and]
+  rw [rcS, ag_popS_nil]
+  simp
+
+/-- all parties honest, `t = 0`, `2^64 ∣ n`: party 0 excludes party 1, party 1 keeps itself -/
+theorem cx_general (hG : ValidGrp G) (n : Nat) (ins : List PartyIn) (hn : ins.length = n)
+    (hbig : 2 ^ 64 ≤ n) (hmod : n % 2 ^ 64 = 0)
+    (hall : ∀ i, i < n → (pinOf ins i).dev1.honest = true)
+    (hc : ∀ i, i < n → goodCoins G 0 (pinOf ins i)) :
+    ∃ P0 P1 : Party GenSt, (runGen G n 0 ins)[0]? = some P0 ∧ (runGen G n 0 ins)[1]? = some P1 ∧
+      1 ∉ P0.st.qual ∧ 1 ∈ P1.st.qual := by
+  have hon : ∀ i, i < n → i ∈ honestIdx ins := fun i hi =>
+    (ag_mem_honestIdx ins i).mpr ⟨by rw [hn]; exact hi, hall i hi⟩
+  have hlt : ∀ i, i ∈ honestIdx ins → i < n := fun i hi => by
+    have := ((ag_mem_honestIdx ins i).mp hi).1
+    rwa [hn] at this
+  have S : Setting G n 0 ins := ⟨hG, hn, fun i hi => hc i (hlt i hi)⟩
+  have I1 := ag_round0 S
+  -- round 1
+  have hS2 := ag_round1_S2 S _ I1
+  have hstream : ∀ i i', i < n → i' < n → i ≠ i' → ∀ P, (runRound (genStep G ins n 0 1)
+      (runRound (genStep G ins n 0 0) (ps0 n 0 ins)))[i']? = some P →
+      bsOf P.inbox i = [((none : Tag), (n : Int))] := by
+    intro i i' hi hi' hne P hP
+    obtain ⟨_, _, _, D, _, _, _, _, hout, _, _, _, _, _, _, _, _, _, _, hD, _, _, hDh, _, _, _⟩ :=
+      ag_round1_party S _ I1 i (hon i hi)
+    obtain ⟨_, _, I', _, P', _, _, hP', _, _, _, _, hb, _, _, _, _, _, _, _, _, _, _, hI', _, _⟩ :=
+      ag_round1_party S _ I1 i' (hon i' hi')
+    rw [hP'] at hP
+    injection hP with hP
+    subst hP
+    have hDnil : D = [] := by
+      apply List.eq_nil_iff_forall_not_mem.mpr
+      intro x hx
+      exact (hDh x (hon x (hD x hx))).2 hx
+    rw [hb i hi, hI' i (hon i hi) hne, hout, hDnil]
+    simp [hne]
+  -- round 2
+  have hr2 : ∀ i', i' < n → ∃ P' : Party GenSt,
+      (runRound (genStep G ins n 0 2) (runRound (genStep G ins n 0 1)
+        (runRound (genStep G ins n 0 0) (ps0 n 0 ins))))[i']? = some P' ∧
+      HL P' ∧ P'.st.n = n ∧ P'.st.t = 0 ∧ P'.st.i = i' ∧ P'.inbox.b.length = n ∧
+      (∀ k, k ∈ P'.st.compl ↔ k < n ∧ k ≠ i') ∧ (i' ≠ 0 → getN P'.st.cnt i' = 0) ∧ InR G.q P'.st.s := by
+    intro i' hi'
+    obtain ⟨P, st', I', cfs, P', hP, h2, hP', _, _, _, e1, hl', bl, _, v1, v2, v3, _, _, v6, v7, _, _, _, v11⟩ :=
+      ag_round2_party (G := G) hn _ hS2 i' (hon i' hi')
+    refine ⟨P', hP', hl', by rw [e1]; exact v1, by rw [e1]; exact v2, by rw [e1]; exact v3, bl, ?_, ?_, by rw [e1]; exact v11⟩
+    · intro k
+      rw [e1, v7 k]
+      constructor
+      · rintro ⟨h1, h2, -⟩
+        exact ⟨h1, h2⟩
+      · rintro ⟨h1, h2⟩
+        refine ⟨h1, h2, ?_⟩
+        rw [hstream k i' h1 hi' h2 P hP]
+        simp [rcBad, cx_rcS_marker n hbig]
+    · intro hne0
+      rw [e1, v6 i' hi', (h2.CH i' (hon i' hi')).2, Nat.zero_add]
+      apply List.sum_eq_zero
+      intro y hy
+      obtain ⟨x, hx, rfl⟩ := List.mem_map.mp hy
+      obtain ⟨hx1, hx2⟩ := List.mem_filter.mp hx
+      have hxn : x < n := List.mem_range.mp hx1
+      have hxi : x ≠ i' := by simpa using hx2
+      rw [hstream x i' hxn hi' hxi P hP]
+      simp only [rcNews, cx_rcS_marker n hbig, hmod]
+      simp [Ne.symm hne0]
+  -- round 3
+  have h1n : 1 < n := lt_of_lt_of_le (by norm_num) hbig
+  have h0n : 0 < n := by omega
+  obtain ⟨Q0, hQ0, hl0, a1, a2, a3, a4, a5, -, a7⟩ := hr2 0 h0n
+  obtain ⟨Q1, hQ1, hl1, b1, b2, b3, b4, b5, b6, b7⟩ := hr2 1 h1n
+  obtain ⟨P0, hP0, -, q0⟩ := ag_round3_party (ins := ins) hG _ 0 Q0 hQ0 hl0 a1 a2 a3 a4 a7
+  obtain ⟨P1, hP1, -, q1⟩ := ag_round3_party (ins := ins) hG _ 1 Q1 hQ1 hl1 b1 b2 b3 b4 b7
+  have e0 := ag_runGen_qual (G := G) n 0 ins 0
+  have e1 := ag_runGen_qual (G := G) n 0 ins 1
+  have hR : runRounds (genStep G ins n 0) [0, 1, 2, 3] (ps0 n 0 ins) =
+      runRound (genStep G ins n 0 3) (runRound (genStep G ins n 0 2) (runRound (genStep G ins n 0 1)
+        (runRound (genStep G ins n 0 0) (ps0 n 0 ins)))) := rfl
+  rw [hR, hP0] at e0
+  rw [hR, hP1] at e1
+  simp only [Option.map_some, Option.map_eq_some_iff] at e0 e1
+  obtain ⟨F0, hF0, g0⟩ := e0
+  obtain ⟨F1, hF1, g1⟩ := e1
+  refine ⟨F0, F1, hF0, hF1, ?_, ?_⟩
+  · rw [g0, q0 1]
+    rintro ⟨-, h⟩
+    exact h (Or.inl ((a5 1).mpr ⟨h1n, by norm_num⟩))
+  · rw [g1, q1 1]
+    refine ⟨h1n, ?_⟩
+    rintro (h | h | ⟨h, -⟩)
+    · exact ((b5 1).mp h).2 rfl
+    · rw [b6 (by norm_num)] at h
+      exact Nat.lt_irrefl 0 h
+    · exact h rfl
+
+/-- a small valid CRS: `p = 7`, `q = 3`, `g = 2`, `h = 4` -/
+theorem cx_grp : ∃ G : Dkg.Grp, ValidGrp G ∧ G.q = 3 := by
+  obtain ⟨tg, h1⟩ := precompute_ok 2 7 (bitlen 3) (by norm_num)
+  obtain ⟨th, h2⟩ := precompute_ok 4 7 (bitlen 3) (by norm_num)
+  have hm : mkGrp 7 3 2 4 = .ok ⟨7, 3, 2, 4, tg, th⟩ := by
+    simp only [mkGrp, h1, h2, bind, Except.bind, pure, Except.pure]
+  have hfit : bitlen 3 ≤ Gen.TMCG_MAX_FPOWM_T := by
+    have : Nat.log2 3 < 2047 := (Nat.log2_lt (by norm_num)).mpr (by
+      calc 3 < 2 ^ 2 := by norm_num
+        _ ≤ 2 ^ 2047 := Nat.pow_le_pow_right (by norm_num) (by norm_num))
+    simp only [bitlen, Gen.TMCG_MAX_FPOWM_T]
+    norm_num
+    omega
+  refine ⟨⟨7, 3, 2, 4, tg, th⟩, mkGrp_valid hm ?_ ?_, rfl⟩
+  · exact ⟨by norm_num, by norm_num, Nat.prime_seven, Nat.prime_three, by norm_num, by norm_num, by norm_num, hfit⟩
+  · exact ⟨by norm_num, by norm_num, Nat.prime_seven, Nat.prime_three, by norm_num, by norm_num, by norm_num, hfit⟩
+
+def cxPin : PartyIn := ⟨[0, 0], [], {}, {}⟩
+
+theorem cx_instance (n : Nat) (hn : n = 2 ^ 64) :
+    ∃ (G : Dkg.Grp) (_ : ValidGrp G) (ins : List PartyIn), ins.length = n ∧
+      n - (honestIdx ins).length ≤ 0 ∧
+      (∀ i ∈ honestIdx ins, goodCoins G 0 (ins.getD i ⟨[], [], {}, {}⟩)) ∧
+      0 ∈ honestIdx ins ∧ 1 ∈ honestIdx ins ∧
+      ∃ P0 P1 : Party GenSt, (runGen G n 0 ins)[0]? = some P0 ∧ (runGen G n 0 ins)[1]? = some P1 ∧
+        1 ∉ P0.st.qual ∧ 1 ∈ P1.st.qual := by
+  obtain ⟨G, hG, hq⟩ := cx_grp
+  have : Fact (Nat.Prime G.p.natAbs) := fact_p hG
+  have hlen : (List.replicate n cxPin).length = n := List.length_replicate
+  have hpin : ∀ i, i < n → pinOf (List.replicate n cxPin) i = cxPin := by
+    intro i hi
+    unfold pinOf
+    rw [List.getD_eq_getElem _ _ (by rw [hlen]; exact hi), List.getElem_replicate]
+  have hhon : cxPin.dev1.honest = true := rfl
+  have hgood : goodCoins G 0 cxPin := by
+    refine ⟨by simp [cxPin], ?_⟩
+    intro c hc
+    simp only [cxPin, List.mem_cons, List.not_mem_nil, or_false, or_self] at hc
+    rw [hc, hq]
+    norm_num
+  have hidx : ∀ i, i < n → i ∈ honestIdx (List.replicate n cxPin) := fun i hi =>
+    (ag_mem_honestIdx _ i).mpr ⟨by rw [hlen]; exact hi, by rw [hpin i hi]; exact hhon⟩
+  have hall : honestIdx (List.replicate n cxPin) = List.range n := by
+    unfold honestIdx
+    rw [hlen]
+    apply List.filter_eq_self.mpr
+    intro i hi
+    have := hpin i (List.mem_range.mp hi)
+    unfold pinOf at this
+    rw [this]
+    exact hhon
+  have hbig : 2 ^ 64 ≤ n := by rw [hn]
+  have hmod : n % 2 ^ 64 = 0 := by rw [hn, Nat.mod_self]
+  have h1n : 1 < n := lt_of_lt_of_le (by norm_num) hbig
+  refine ⟨G, hG, List.replicate n cxPin, hlen, by rw [hall]; simp, ?_, hidx 0 (by omega), hidx 1 h1n, ?_⟩
+  · intro i hi
+    have hi' : i < n := by
+      have := ((ag_mem_honestIdx _ i).mp hi).1
+      rwa [hlen] at this
+    have := hpin i hi'
+    unfold pinOf at this
+    rw [this]
+    exact hgood
+  · exact cx_general hG n _ hlen hbig hmod (fun i hi => by rw [hpin i hi]; exact hhon)
+      (fun i hi => by rw [hpin i hi]; exact hgood)
+
+/-- `honest_in_qual` of TmcgProofs/Dkg.lean without a bound on `n` does not hold -/
+theorem honest_in_qual_unbounded_false :
+    ¬ (∀ (G : Dkg.Grp) [Fact (Nat.Prime G.p.natAbs)] (_ : ValidGrp G) (n t : Nat) (ins : List PartyIn)
+        (_ : ins.length = n) (_ : 2 * t < n) (_ : n - (honestIdx ins).length ≤ t)
+        (_ : ∀ i ∈ honestIdx ins, goodCoins G t (ins.getD i ⟨[], [], {}, {}⟩))
+        (i j : Nat) (_ : i ∈ honestIdx ins) (_ : j ∈ honestIdx ins) (Pi : Party GenSt)
+        (_ : (runGen G n t ins)[i]? = some Pi), j ∈ Pi.st.qual) := by
+  intro H
+  obtain ⟨n, hn⟩ : ∃ n : Nat, n = 2 ^ 64 := ⟨_, rfl⟩
+  obtain ⟨G, hG, ins, hlen, hf, hc, h0, h1, P0, P1, hP0, hP1, hq0, hq1⟩ := cx_instance n hn
+  have : Fact (Nat.Prime G.p.natAbs) := fact_p hG
+  exact hq0 (H G hG n 0 ins hlen (by rw [hn]; norm_num) hf hc 0 1 h0 h1 P0 hP0)
+
+/-- `qual_agree` of TmcgProofs/Dkg.lean without a bound on `n` does not hold -/
+theorem qual_agree_unbounded_false :
+    ¬ (∀ (G : Dkg.Grp) [Fact (Nat.Prime G.p.natAbs)] (_ : ValidGrp G) (n t : Nat) (ins : List PartyIn)
+        (_ : ins.length = n) (_ : 2 * t < n) (_ : n - (honestIdx ins).length ≤ t)
+        (_ : ∀ i ∈ honestIdx ins, goodCoins G t (ins.getD i ⟨[], [], {}, {}⟩))
+        (i j : Nat) (_ : i ∈ honestIdx ins) (_ : j ∈ honestIdx ins) (Pi Pj : Party GenSt)
+        (_ : (runGen G n t ins)[i]? = some Pi) (_ : (runGen G n t ins)[j]? = some Pj),
+        Pi.st.qual = Pj.st.qual) := by
+  intro H
+  obtain ⟨n, hn⟩ : ∃ n : Nat, n = 2 ^ 64 := ⟨_, rfl⟩
+  obtain ⟨G, hG, ins, hlen, hf, hc, h0, h1, P0, P1, hP0, hP1, hq0, hq1⟩ := cx_instance n hn
+  have : Fact (Nat.Prime G.p.natAbs) := fact_p hG
+  have := H G hG n 0 ins hlen (by rw [hn]; norm_num) hf hc 0 1 h0 h1 P0 P1 hP0 hP1
+  rw [this] at hq0
+  exact hq0 hq1
 
 end Tmcg.DkgP
